@@ -252,14 +252,22 @@ def edit_classes(case):
 
 
 @st.composite
-def wide_group_cases(draw, names_strategy=None, max_members=24, sanitize=None, group_alone=False):
+def wide_group_cases(draw, names_strategy=None, max_members=24, sanitize=None, group_alone=False, min_members=10,
+                     few_selections=False, special_bounds=False):
     """A small model with one group of 10..max_members leaves under the root or under an optional child, bounds
     drawn so that textual and numeric order often disagree ([2,10], [9,11]) - too many features for 2^n
     enumeration, so the case carries its own selections: for every boundary count (min-1, min, max, max+1, 0, all)
     the first and a drawn subset of that many members, with and without the features above the group."""
-    k = draw(st.integers(10, max_members))
-    if draw(st.booleans()):
+    k = draw(st.integers(min_members, max_members))
+    how = 1 if special_bounds else draw(st.integers(0, 3))
+    if how == 0 and k >= 10:
         lo, hi = draw(st.integers(2, 9)), draw(st.integers(10, k))
+    elif how == 1:
+        # bounds in a particular arithmetic relationship to the number of members: min + max == n, min == max,
+        # max == n - 1, min == n / 2 ...
+        lo = draw(st.integers(1, k // 2))
+        hi = draw(st.sampled_from([k - lo, lo, k - 1, k, lo + 1, 2 * lo if 2 * lo <= k else k]))
+        hi = max(hi, lo)
     else:
         lo = draw(st.integers(0, k))
         hi = draw(st.integers(lo, k))
@@ -280,10 +288,13 @@ def wide_group_cases(draw, names_strategy=None, max_members=24, sanitize=None, g
                                            ["T", draw(st.sampled_from(["Opt", "M0", f"M{k - 1}"]))]]})
     sels = []
     names_m = [f"M{i}" for i in range(k)]
-    for c in sorted({0, 1, lo - 1, lo, lo + 1, hi - 1, hi, hi + 1, k - 1, k} & set(range(0, k + 1))):
-        picks = [names_m[:c], list(draw(st.permutations(names_m)))[:c]]
+    counts = sorted({0, 1, lo - 1, lo, lo + 1, hi - 1, hi, hi + 1, k - 1, k} & set(range(0, k + 1)))
+    if few_selections:
+        counts = sorted({lo - 1, lo, hi, hi + 1, 0} & set(range(0, k + 1)))
+    for c in counts:
+        picks = [names_m[:c]] if few_selections else [names_m[:c], list(draw(st.permutations(names_m)))[:c]]
         for pk in picks:
-            for opt in ([], ["Opt"]):
+            for opt in ([[]] if few_selections else ([], ["Opt"])):
                 sels.append(sorted(above + pk + opt))
     sels.append(["Root"])
     sels.append(sorted(["Root"] + names_m[:lo]))     # members without their holder (when there is one)
